@@ -190,6 +190,16 @@ where
                         .flatten()
                     })
                 }
+                "root" => {
+                    // `Frame::root(ctxt, Empty)` → `TraceparentCtxt::open_root`: detaches the ambient PROPERTIES; the
+                    // props start no span, so the frame is inactive and the thread's traceparent stays in force
+                    emit::Frame::root(&w.ctxt, emit::Empty).call(|| -> Option<()> {
+                        for c in args {
+                            run_prog(w, c)?;
+                        }
+                        Some(())
+                    })
+                }
                 "push" => {
                     let (tp, cs) = args.split_first()?;
                     let tp = parse_tp(tp)?;
@@ -430,7 +440,7 @@ fn gen_prog(rng: &mut Rng, depth: usize, budget: &mut usize) -> Sexp {
         0..=3 => Sexp::tagged("span", cs),
         4 => Sexp::tagged("spana", cs),
         5 => Sexp::tagged("spant", cs),
-        6 => Sexp::tagged("carry", cs),
+        6 => Sexp::tagged(if rng.chance(1, 3) { "root" } else { "carry" }, cs),
         7 => {
             let mut v = vec![Sexp::num(rng.below(4))];
             v.append(&mut cs);
